@@ -476,7 +476,8 @@ def gb_cases(rng, ncases):
             out.append(dict(base, kind="gb", which=which))
         if wf:
             for suffix in rng.sample(["", ".gz", ".bz2"], 2):
-                for n in (rng.choice([1, 2, 3, 7, 61]), ["disk", rng.choice([-1, 0, 1])], ["len", -1]):
+                for n in (rng.choice([1, 2, 3, 7, 61]), ["disk", rng.choice([-1, 0, 1])], ["len", rng.choice([-1, 1])],
+                          ["mid"]):
                     out.append(dict(base, kind="gbstream", n=n, suffix=suffix))
     return out
 
@@ -1015,7 +1016,7 @@ def coverage_matrix(cases, impl):
         elif k == "big" and "csize" in r:
             add(f"load_seqs({c['fmt']})", c["suffix"], "shrinks", chunk_class(None, r["csize"], r["dsize"]))
     grid = []
-    readers = ["iter_splitlines"] + [f"parser({f})+iter_splitlines" for f in ("gde", "phylip", "paml")]
+    readers = ["iter_splitlines"] + [f"parser({f})+iter_splitlines" for f in ("gde", "phylip", "paml", "genbank-lines")]
     for reader in readers:
         for suffix in ("plain", ".gz", ".bz2"):
             for cls in ("n<len", "n>=len"):
